@@ -274,11 +274,11 @@ def gen_cases(ctx):
                 c["line"] = f"bound {F(c['k'], *v, *c['s'], c['c1'], c['c2'])}"
             cases.append(c)
 
-    add("ip", ctx.n(3000, 60000))
-    add("lj", ctx.n(1500, 30000))
-    add("dep", ctx.n(1500, 30000))
-    add("bend", ctx.n(2000, 40000))
-    add("bound", ctx.n(1500, 30000))
+    add("ip", ctx.n(3000, 200000))
+    add("lj", ctx.n(1500, 100000))
+    add("dep", ctx.n(1500, 100000))
+    add("bend", ctx.n(2000, 120000))
+    add("bound", ctx.n(1500, 100000))
     return cases
 
 
@@ -315,9 +315,9 @@ def gen_ewald_sep(rng, L):
         x = rng.uniform(-h, h)
         return rng.choice([[x, x, x], [x, -x, x], [x, 0.0, 0.0], [0.0, x, 0.0], [0.0, 0.0, x], [h, h, x], [x, h, -h]]), "special-line"
     if c < 0.95:
+        # one component one box outside the minimum-image cube (with more the spherical cut-off 3 is not converged)
         s = [rng.uniform(-h, h) for _ in range(3)]
-        for i in range(3):
-            s[i] += L * rng.choice([0, 0, 1, -1])
+        s[rng.randrange(3)] += L * rng.choice([1, -1])
         return s, "outside-box"
     return [1 / 7 * L, 1 / 8 * L, 1 / 5 * L], "unittest-point"
 
@@ -327,7 +327,7 @@ def gen_ewald(ctx):
     Ls = [1.0, 2.0, 1e-3, 1e3, rng.uniform(0.5, 20), 10.0 ** rng.uniform(-2, 2)]
     if not ctx.quick:
         Ls += [rng.uniform(0.5, 20) for _ in range(6)] + [7.0, 0.1]
-    per = ctx.n(250, 2500)
+    per = ctx.n(250, 6000)
     out = []
     for L in Ls:
         group = []
@@ -747,7 +747,7 @@ def run(ctx):
         process(c, r)
 
     # ---------------- merged-image Coulomb, one setting per box length
-    n_fd = ctx.n(120, 700)
+    n_fd = ctx.n(120, 2000)
     for L, group in gen_ewald(ctx):
         init_setting(L)
         merged_cache.clear()
